@@ -662,3 +662,144 @@ def flags_are_copied():
             "extension_manager.is_task_list_items_enabled"]
     missing = [w for w in want if w not in src]
     return [{"name": "structural::C20::flags_copied", "ok": not missing, "info": flags_are_copied.__doc__, "detail": f"missing reads: {missing}"}]
+
+
+# ------------------------------------------------------------------------------------------------------------ C04
+PARSER_EXCLUDE = ("pymarkdown/plugins/", "pymarkdown/transform_markdown/", "pymarkdown/transform_to_", "pymarkdown/transform_gfm/")
+
+
+def _parser_files():
+    for rel, full in py_files():
+        if not rel.startswith(PARSER_EXCLUDE):
+            yield rel, full
+
+
+def _is_top_index(sub: ast.Subscript) -> bool:
+    s = sub.slice
+    return isinstance(s, ast.UnaryOp) and isinstance(s.op, ast.USub) and isinstance(s.operand, ast.Constant) and s.operand.value == 1
+
+
+def _ends_with_attr(e: ast.expr, name: str) -> bool:
+    return isinstance(e, ast.Attribute) and e.attr == name
+
+
+@check("C04")
+def end_tokens_only_from_generators():
+    """In the parser (everything but the rule plugins, which build replacement tokens for fixes) an EndMarkdownToken is
+    constructed only by the two generators under contract (StackToken.generate_close_markdown_token_from_stack_token,
+    MarkdownToken.generate_close_markdown_token_from_markdown_token): every end token refers to the start token it closes."""
+    allowed = {("pymarkdown/tokens/stack_token.py", "StackToken.generate_close_markdown_token_from_stack_token"),
+               ("pymarkdown/tokens/markdown_token.py", "MarkdownToken.generate_close_markdown_token_from_markdown_token")}
+    sites, bad = [], []
+    for rel, full in _parser_files():
+        for q, fn in enclosing_functions(parse(full)):
+            for n in ast.walk(fn):
+                if isinstance(n, ast.Call) and ((isinstance(n.func, ast.Name) and n.func.id == "EndMarkdownToken")
+                                                or (isinstance(n.func, ast.Attribute) and n.func.attr == "EndMarkdownToken")):
+                    sites.append((rel, q, n.lineno))
+                    if (rel, q) not in allowed:
+                        bad.append((rel, q, n.lineno))
+    return [{"name": "structural::C04::end_tokens_only_from_generators", "ok": bool(sites) and not bad,
+             "info": end_tokens_only_from_generators.__doc__, "detail": f"construction sites: {sites}; unexpected: {bad}"}]
+
+
+# the one place that rewinds the block stack wholesale (under contract in contracts/nesting.py)
+REWIND = ("pymarkdown/links/link_reference_definition_helper.py", "LinkReferenceDefinitionHelper.__prepare_for_requeue_reset_document_and_stack")
+
+
+@check("C04")
+def block_stack_discipline():
+    """The parser's block stack (`token_stack`) is a stack: in the parser it is only ever changed by `.append(x)` (open a
+    block) and `del ...token_stack[-1]` (close the innermost one); the only wholesale change is the LRD rewind, which is
+    under contract (stack == snapshot).  No insert / pop(i) / remove / slice assignment / re-binding can take an entry out of
+    the middle.  One obligation per mutation site."""
+    out, n = [], 0
+    for rel, full in _parser_files():
+        for q, fn in enclosing_functions(parse(full)):
+            for node in ast.walk(fn):
+                verdict = None
+                if isinstance(node, ast.Call) and isinstance(node.func, ast.Attribute) and _ends_with_attr(node.func.value, "token_stack") \
+                        and node.func.attr in ("append", "insert", "pop", "remove", "extend", "clear", "sort", "reverse", "__setitem__", "__delitem__"):
+                    verdict = node.func.attr == "append" or (node.func.attr == "extend" and (rel, q) == REWIND)
+                    what = f".{node.func.attr}()"
+                elif isinstance(node, ast.Delete):
+                    for t in node.targets:
+                        if isinstance(t, ast.Subscript) and _ends_with_attr(t.value, "token_stack"):
+                            verdict = _is_top_index(t)
+                            what = "del [" + ast.unparse(t.slice) + "]"
+                elif isinstance(node, (ast.Assign, ast.AugAssign, ast.AnnAssign)):
+                    tg = node.targets if isinstance(node, ast.Assign) else [node.target]
+                    flat = []
+                    for t in tg:
+                        flat.extend(t.elts if isinstance(t, (ast.Tuple, ast.List)) else [t])
+                    for t in flat:
+                        if isinstance(t, ast.Subscript) and _ends_with_attr(t.value, "token_stack"):
+                            verdict, what = False, "item/slice assignment"
+                        elif isinstance(t, ast.Attribute) and t.attr in ("token_stack", "__token_stack", "_ParserState__token_stack"):
+                            # (re-)binding: only where the stack is created for a document
+                            verdict = (rel, q) in {("pymarkdown/general/tokenized_markdown.py", "TokenizedMarkdown.__init__"), ("pymarkdown/general/tokenized_markdown.py", "TokenizedMarkdown.__transform"),
+                                                   ("pymarkdown/general/tokenized_markdown.py", "TokenizedMarkdown.__parse_blocks_pass"),
+                                                   ("pymarkdown/general/parser_state.py", "ParserState.__init__")}
+                            what = "re-binding"
+                if verdict is None:
+                    continue
+                n += 1
+                out.append({"name": f"structural::C04::block_stack_discipline[{rel}::{q}@{node.lineno}]", "ok": bool(verdict),
+                            "info": "token_stack is only changed by append / del [-1] (plus the contracted LRD rewind)",
+                            "detail": f"{what} at {rel}:{node.lineno}"})
+    if n < 10:
+        out.append({"name": "structural::C04::block_stack_discipline[coverage]", "ok": False, "undecided": True,
+                    "info": "expected mutation sites not found", "detail": f"only {n} sites"})
+    return out
+
+
+@check("C04")
+def close_emits_end_for_top_of_stack():
+    """Every end token generated from a stack entry is generated from the TOP entry (`...token_stack[-1]`) and that entry
+    is removed (`del ...token_stack[-1]`) later in the same block before anything is pushed: an end token closes the most
+    recently opened, still open block.  One obligation per call of generate_close_markdown_token_from_stack_token."""
+    out = []
+    for rel, full in _parser_files():
+        for q, fn in enclosing_functions(parse(full)):
+            for blk in [b for b in ast.walk(fn) if hasattr(b, "body") and isinstance(getattr(b, "body"), list)]:
+                for field in ("body", "orelse", "finalbody"):
+                    stmts = getattr(blk, field, None)
+                    if not isinstance(stmts, list):
+                        continue
+                    for i, st in enumerate(stmts):
+                        calls = [c for c in _walk_shallow(st) if isinstance(c, ast.Call) and isinstance(c.func, ast.Attribute)
+                                 and c.func.attr == "generate_close_markdown_token_from_stack_token"]
+                        for c in calls:
+                            recv = c.func.value
+                            top = isinstance(recv, ast.Subscript) and _ends_with_attr(recv.value, "token_stack") and _is_top_index(recv)
+                            popped = False
+                            for later in stmts[i + 1:]:
+                                if any(isinstance(x, ast.Call) and isinstance(x.func, ast.Attribute) and x.func.attr in ("append", "extend", "insert")
+                                       and _ends_with_attr(x.func.value, "token_stack") for x in ast.walk(later)):
+                                    break
+                                if isinstance(later, ast.Delete) and any(isinstance(t, ast.Subscript) and _ends_with_attr(t.value, "token_stack")
+                                                                         and _is_top_index(t) for t in later.targets):
+                                    popped = True
+                                    break
+                            out.append({"name": f"structural::C04::close_top_of_stack[{rel}::{q}@{c.lineno}]", "ok": top and popped,
+                                        "info": "end token generated from token_stack[-1], which is then deleted",
+                                        "detail": f"receiver {ast.unparse(recv)}; top={top}; followed by del [-1]={popped}"})
+    if len(out) < 3:
+        out.append({"name": "structural::C04::close_top_of_stack[coverage]", "ok": False, "undecided": True,
+                    "info": "expected call sites not found", "detail": f"only {len(out)} sites"})
+    return out
+
+
+def _walk_shallow(stmt: ast.stmt):
+    """nodes of a statement without descending into nested statement blocks (those are visited as blocks themselves)"""
+    todo = [stmt]
+    while todo:
+        n = todo.pop()
+        yield n
+        for name, val in ast.iter_fields(n):
+            if name in ("body", "orelse", "finalbody", "handlers") and isinstance(val, list) and val and isinstance(val[0], (ast.stmt, ast.ExceptHandler)):
+                continue
+            if isinstance(val, ast.AST):
+                todo.append(val)
+            elif isinstance(val, list):
+                todo.extend(v for v in val if isinstance(v, ast.AST))
